@@ -52,6 +52,24 @@ def run(ctx, rep):
     okret = [bi for bi, si, dst, rv, s in mo.assigns() if dst["l"] == 0 and "agg" in rv and rv["agg"].get("v") == "Ok"]
     ok = bool(builds) and bool(okret) and all(rules.call_dominates(mo, builds, b) for b in okret)
     rep.ob("C08.fresh-identity", "make_object builds a new object on every Ok path", "ok" if ok else "violated", "", mo.span, fn=mo.path)
+    # the builder is one process-wide object that remembers what it was told last: the class name and the variables of *this* object are told
+    # to it on every path that builds (a setter that sits only in the "class not registered yet" branch leaves the previous class's name)
+    for setter, what, src in (("bytecode::variables::object::ObjectBuilder::name", "class name", "bytecode::function::Function::name"),
+                              ("bytecode::variables::object::ObjectBuilder::object_variables", "fields", None)):      # their origin: the clause on object_variables above
+        sets = mo.calls_to(setter)
+        okd = bool(sets) and all(rules.call_dominates(mo, sets, b.bb) for b in builds)
+        okv = True
+        for c in sets:
+            l = op_local(c.args[1]) if len(c.args) > 1 else None
+            oc = rules.origin_calls(mo, l, transparent=rules.TRANSPARENT | {rules.TRY_BRANCH, "alloc::borrow::ToOwned::to_owned", "core::clone::Clone::clone",
+                                                                             "alloc::string::ToString::to_string"}) if l is not None else []
+            if src is not None and not any(x.matches(src) for x in oc):
+                okv = False
+        rep.ob("C08.class-of-object", "make_object tells the shared builder the %s of this object on every path that builds" % what,
+               "ok" if (okd and okv) else "violated",
+               "" if (okd and okv) else ("%d call(s) of %s; dominating every build: %s; value from %s: %s - an object built after another class was first instantiated gets that "
+                                         "class's name and its method calls fail" % (len(sets), mir.short(setter), okd, mir.short(src or "-"), okv)),
+               builds[0].span if builds else mo.span, fn=mo.path, key="C08.class-of-object|%s" % what.replace(" ", "-"))
     # build not in a cache branch: each execution of make_object calls build (no guard that skips it)
     pushes = mo.calls_to("bytecode::context::Ctx::push")
     for p in pushes:
